@@ -212,6 +212,12 @@ func (d *Do) appendParameterBeforeTypeCalculate(
 
 	case base.UNIFY_ARGUMENT:
 		tmpArgTs := p.GetTmpEvaluaetdArgs()
+
+		// e.g. h.merge { |e| ... } without the argument the block parameter is taken from
+		if len(tmpArgTs) == 0 {
+			return append(blockParamaters, *base.MakeUntyped())
+		}
+
 		blockParamaters = append(blockParamaters, *tmpArgTs[0].UnifyVariants())
 		return blockParamaters
 
